@@ -191,6 +191,9 @@ const TEMPLATES: &[Tmpl] = &[
     Tmpl { id: "upd-pk", sql: "UPDATE {T} SET {C} = ? WHERE id = ?", slots: &[Probe, Lit(2)], main_only: false, select: false },
     Tmpl { id: "upd-pk-pos", sql: "UPDATE {T} SET {C} = $2 WHERE id = $1", slots: &[Lit(2), Probe], main_only: false, select: false },
     Tmpl { id: "upd-two", sql: "UPDATE {T} SET o = ?, {C2} = ? WHERE id = ?", slots: &[Lit(1), Probe, Lit(1)], main_only: true, select: false },
+    Tmpl { id: "upd-expr-pk", sql: "UPDATE {T} SET i = ? + 1 WHERE id = ?", slots: &[Lit(2), Lit(3)], main_only: true, select: false },
+    Tmpl { id: "upd-expr2-pk", sql: "UPDATE {T} SET i = ? * ? WHERE id = ?", slots: &[Lit(1), Lit(2), Lit(3)], main_only: true, select: false },
+    Tmpl { id: "upd-exprmix-pk", sql: "UPDATE {T} SET i = 1 + ?, {C2} = ? WHERE id = ?", slots: &[Lit(2), Probe, Lit(3)], main_only: true, select: false },
     Tmpl { id: "upd-range", sql: "UPDATE {T} SET {C} = ? WHERE id > ?", slots: &[Probe, Lit(1)], main_only: false, select: false },
     Tmpl { id: "upd-where", sql: "UPDATE {T} SET {C4} = NULL WHERE {C} = ?", slots: &[Probe], main_only: false, select: false },
     Tmpl { id: "upd-strlit", sql: "UPDATE {T} SET s = '$1 ?', {C3} = ? /* ? */ WHERE id = ? -- $2", slots: &[Probe, Lit(2)], main_only: true, select: false },
